@@ -522,15 +522,21 @@ theorem ite_noRst (p : Prop) [Decidable p] (o : Out) (ho : ∀ a b, o ≠ Out.rs
   · simp at h; exact ho a b h.symm
   · simp at h
 
-theorem Act.discard (c : H2Conn) : Act c (discardHeaders c) := by
+theorem Act.discardCnt (c : H2Conn) : Act c (discardCount c) := by
+  unfold discardCount
+  simp only
+  split
+  · exact Act.pre (c1 := { c with nDiscarded := c.nDiscarded + 1 })
+      (Recv.of_streams_eq rfl (Nat.le_refl _) id) (Act.goaway _ _)
+  · exact Act.quiet (Recv.of_streams_eq rfl (Nat.le_refl _) id)
+
+theorem Act.discard (c : H2Conn) (kind : HdrKind) : Act c (discardHeaders c kind) := by
   unfold discardHeaders
   split
   · exact Act.quiet (Recv.refl c)
-  · simp only
-    split
-    · exact Act.pre (c1 := { c with nDiscarded := c.nDiscarded + 1 })
-        (Recv.of_streams_eq rfl (Nat.le_refl _) id) (Act.goaway _ _)
-    · exact Act.quiet (Recv.of_streams_eq rfl (Nat.le_refl _) id)
+  · split
+    · exact Act.andThen (f := fun c => sendGoaway c E.compression) (Act.discardCnt c) (fun c1 => Act.goaway c1 _)
+    · exact Act.discardCnt c
 
 theorem Act.connWin (c : H2Conn) (len : Nat) : Act c (connWinUpd c len) := by
   unfold connWinUpd
@@ -923,21 +929,21 @@ theorem Recv.add (c : H2Conn) (s : Strm) (hid : c.cid < s.id) (hh : s.headersSen
 theorem Act.trailers (c : H2Conn) (sid : Nat) (kind : HdrKind) (es : Bool) : Act c (recvTrailers c sid kind es) := by
   unfold recvTrailers
   split
-  · exact (Act.goaway c _).andThen Act.discard
+  · exact (Act.goaway c _).andThen (fun c1 => Act.discard c1 kind)
   · rename_i s hs
     have hid := findStrm_id hs
     have hex : ∃ x ∈ c.streams, x.id = sid := ⟨s, hid.2, hid.1⟩
     split
-    · exact (Act.rstOne c sid _ hex).andThen Act.discard
+    · exact (Act.rstOne c sid _ hex).andThen (fun c1 => Act.discard c1 kind)
     · split
-      · exact (Act.rstOne c sid _ hex).andThen Act.discard
+      · exact (Act.rstOne c sid _ hex).andThen (fun c1 => Act.discard c1 kind)
       · simp only
         have a := Act.endData c s 0 ⟨s, hid.2, rfl⟩
         split
         · split
           · exact a.andThen (fun c1 => Act.goaway c1 _)
           · exact a
-        · exact a.andThen Act.discard
+        · exact a.andThen (fun c1 => Act.discard c1 kind)
 
 theorem Act.headers (c : H2Conn) (sid : Nat) (kind : HdrKind) (es : Bool) (dep : Option Nat) (padBad : Bool)
     (hg : c.goaway ≤ 0) : Act c (recvHeaders c sid kind es dep padBad) := by
@@ -954,9 +960,9 @@ theorem Act.headers (c : H2Conn) (sid : Nat) (kind : HdrKind) (es : Bool) (dep :
         · rename_i hsid
           have hsid' : c.cid < sid := by omega
           split
-          · exact Act.discard c
+          · exact Act.discard c kind
           · split
-            · exact (Act.refuse c sid hsid').andThen Act.discard
+            · exact (Act.refuse c sid hsid').andThen (fun c1 => Act.discard c1 kind)
             · rename_i hg0 _
               have hg0' : c.goaway = 0 := by simpa using hg0
               unfold newStream
